@@ -343,6 +343,33 @@ def gen_spike(rng):
             "cluster straddles the coordinate axes" if where <= 1 else "cluster away from the axes"], pts, tol
 
 
+def gen_near_pair(rng):
+    """A chord A-D many tolerances long with two NEARLY COINCIDENT consecutive interior vertices (closer
+    together than a hundredth of the tolerance) about one tolerance off the chord: one just inside the
+    tolerance, one just outside, in either order - or both on the same side of the limit.  Whatever is
+    deleted must lie within the tolerance of what survives; treating the pair as one vertex does not."""
+    tol = rng.choice((1.0, 1.0, 0.5, 0.1, 2.5, 0.01, rng.uniform(0.05, 5)))
+    ang = rng.choice((0, 1, 2, 3, 4, 5, 6, 7)) * math.pi / 4 if rng.random() < 0.5 else rng.uniform(0, 2 * math.pi)
+    ex, ey = math.cos(ang), math.sin(ang)
+    nx, ny = -ey, ex
+    ox, oy = rng.choice(((0.0, 0.0), (rng.uniform(-10, 10), rng.uniform(-10, 10))))
+    length = rng.uniform(5, 30) * tol
+    pts = [[ox, oy]]
+    for _rep in range(rng.randint(1, 2)):
+        s = rng.uniform(0.3, 0.7) * length
+        side = rng.choice((1, -1))
+        u, v = rng.uniform(0.0005, 0.0045), rng.uniform(0.0005, 0.0045)
+        kind = rng.randrange(4)
+        h1, h2 = ((1 - u, 1 + v), (1 + v, 1 - u), (1 - u, 1 - u / 2), (1 + v / 2, 1 + v))[kind]
+        ds = rng.uniform(-0.002, 0.002) * tol
+        for h, t in ((h1, s), (h2, s + ds)):
+            pts.append([ox + t * ex + side * h * tol * nx, oy + t * ey + side * h * tol * ny])
+        ox, oy = ox + length * ex, oy + length * ey
+        pts.append([ox, oy])
+    return ["two nearly coincident consecutive vertices about one tolerance off the chord",
+            "tolerance comparable to the deviations"], pts, tol
+
+
 def gen_very_long(rng):
     """Thousands of vertices (a densely sampled arc / spiral / noisy trend line, as a plotted curve or a
     digitised drawing is): anything that works through a long list in blocks, windows or with a size
@@ -401,6 +428,8 @@ def gen_path(rng):
         return gen_cluster(rng)
     if rng.random() < 0.10:
         return gen_spike(rng)
+    if rng.random() < 0.07:
+        return gen_near_pair(rng)
     c = rng.random()
     n = rng.choice((0, 1, 2, 3, 3, 4, 5, 6, 8, rng.randint(3, 30), rng.randint(10, 120), rng.randint(50, 400)))
     pts = []
@@ -572,6 +601,7 @@ def run(ctx):
     ctx.need("function graph: x strictly increasing, steep swings (sorted input)", 150)
     ctx.need("cluster straddles the coordinate axes", 150)
     ctx.need("cluster away from the axes", 150)
+    ctx.need("two nearly coincident consecutive vertices about one tolerance off the chord", 150)
     ctx.need("monitor:supersample evaluated", 3_000)
     ctx.need("history: after a failed call (malformed arguments)", 20)
     ctx.need("monitor:points_in_tolerance evaluated", 10_000)
